@@ -95,6 +95,15 @@ func globMatch(glob, s string) bool {
 	return strings.HasSuffix(s, parts[len(parts)-1])
 }
 
+// unexportedKey: the function (and, for a method, its name) is not part of the package API.
+func unexportedKey(key string) bool {
+	name := key
+	if i := strings.LastIndex(key, "."); i >= 0 {
+		name = key[i+1:]
+	}
+	return name != "" && name[0] >= 'a' && name[0] <= 'z'
+}
+
 // ---- check ------------------------------------------------------------------------------------
 
 func cmdCheck(prop, tier string) int {
@@ -123,6 +132,12 @@ func cmdCheck(prop, tier string) int {
 	for _, key := range s.cf.Order {
 		ct := s.cf.Funcs[key]
 		if !contractServes(ct, prop) {
+			continue
+		}
+		if s.prog.Funcs[key] == nil && unexportedKey(key) {
+			// an unexported helper that no longer exists (inlined, renamed, replaced by a builtin):
+			// its contract is unused; callers are verified against whatever they call now
+			fmt.Fprintf(os.Stderr, "note: contract of unexported %s is unused (no such function)\n", key)
 			continue
 		}
 		if s.prog.Funcs[key] == nil {
